@@ -92,6 +92,10 @@ def stepLine (s : DrvSt) (toks : List String) : DrvSt × String :=
       | some sb => (s, Hive.WPG.showStream sb.stream)
       | none => (s, "skip")
     | none, "wait", some g => (s, if Hive.WPG.waitChildrenReturns tree g then "returns" else "blocks")
+    | none, "waitp", some g =>
+      if Hive.WPG.isGroup tree g then (s, if Hive.WPG.waitParentsReturns tree g then "returns" else "blocks") else (s, "skip")
+    | none, "root", some g => if Hive.WPG.isGroup tree g then (s, s!"{Hive.WPG.rootOf tree.length tree g}") else (s, "skip")
+    | none, "pools", some g => if Hive.WPG.isGroup tree g then (s, s!"{Hive.WPG.poolsBelow tree g}") else (s, "skip")
     | _, _, _ => (s, "bad-op")
   | ["quiet"] =>
     match s.mon with
